@@ -1,5 +1,6 @@
 import Mimium.Proofs.CstShape
 import Mimium.Proofs.CstKeepList
+import Mimium.Proofs.CstKeepLambda
 /-!
 # What every grammar function appends to the open node when no error is recorded (`Rs`), and the lemmas for the derived commands
 -/
@@ -86,6 +87,11 @@ def Rs (t : Tag) (s s' : St) : Prop :=
   | .usePathLoop | .qualifiedPathLoop => App (fun w => ∀ g ∈ w, QPok c g) s s'
   | .blockLoop => App (fun w => ∀ g ∈ w, IsNode g) s s'
   | .paramLoop => App (PLang c) s s'
+  | .type_ | .typeUnion | .typePrimary => AppE E (TB c) s s'
+  | .typeTupleOrParen => App (TB c) s s'
+  | .typeTupleLoop => Sep E c (TB c) s s'
+  | .typeRecordLoop => Sep E c (PRecTy c) s s'
+  | .lambdaParamLoop => App (fun w => ∀ g ∈ w, CstPrint.NoBar c g) s s'
   | _ => True
 
 /-- … and the end of the input is never left -/
